@@ -20,26 +20,32 @@ CONSTANTS ClassTable,      \* set of [cls, sign, query, body]: token each encode
           Endpoints,       \* set of [name, exchange, placement ("query"|"body"|"none"), signed, keyed]
           MaxLen,          \* values are sequences of at most MaxLen classes
           PreEncodedQuery, \* TRUE: the client transmits the very query string it signed (no re-encoding by the HTTP library)
-          MaxWait, Tol     \* rate-limiter wait (ticks) and the exchange's timestamp tolerance
+          MaxWait, Tol,    \* rate-limiter wait (ticks) and the exchange's timestamp tolerance
+          Resend           \* what happens when the connection is lost after the exchange received the request:
+                           \*   "none"   the call fails (what the clients do; aiohttp itself only repeats idempotent GETs)
+                           \*   "resign" the request goes through stamping and signing again (fresh nonce and timestamp)
+                           \*   "reuse"  the very same headers are transmitted again (a design the exchange refuses)
 
 Classes == {r.cls : r \in ClassTable}
 Row(c) == CHOOSE r \in ClassTable : r.cls = c
 Values == UNION {[1..n -> Classes] : n \in 0..MaxLen}
 
-VARIABLES phase, ep, val, clock, ts, signedMsg, wireMsg, keySent, accepted, nonce, usedNonces
-vars == <<phase, ep, val, clock, ts, signedMsg, wireMsg, keySent, accepted, nonce, usedNonces>>
+VARIABLES phase, ep, val, clock, ts, signedMsg, wireMsg, keySent, accepted, nonce, usedNonces,
+          received,   \* number of signed requests the exchange received
+          seen        \* nonces the exchange received (it refuses a nonce it has seen before)
+vars == <<phase, ep, val, clock, ts, signedMsg, wireMsg, keySent, accepted, nonce, usedNonces, received, seen>>
 
 Init == /\ phase = "idle" /\ ep \in Endpoints /\ val = <<>> /\ clock = 0 /\ ts = 0 /\ signedMsg = <<>> /\ wireMsg = <<>>
-        /\ keySent = FALSE /\ accepted = FALSE /\ nonce = 0 /\ usedNonces = {}
+        /\ keySent = FALSE /\ accepted = FALSE /\ nonce = 0 /\ usedNonces = {} /\ received = 0 /\ seen = {}
 
 Build == /\ phase = "idle"
          /\ ep' \in Endpoints /\ val' \in Values
          /\ phase' = "built"
-         /\ UNCHANGED <<clock, ts, signedMsg, wireMsg, keySent, accepted, nonce, usedNonces>>
+         /\ UNCHANGED <<clock, ts, signedMsg, wireMsg, keySent, accepted, nonce, usedNonces, received, seen>>
 \* the token bucket may make the caller wait before the request is stamped
 Throttle == /\ phase = "built" /\ \E w \in 0..MaxWait : clock' = clock + w
             /\ phase' = "throttled"
-            /\ UNCHANGED <<ep, val, ts, signedMsg, wireMsg, keySent, accepted, nonce, usedNonces>>
+            /\ UNCHANGED <<ep, val, ts, signedMsg, wireMsg, keySent, accepted, nonce, usedNonces, received, seen>>
 \* timestamp (and nonce) are taken after the wait; the signature covers what the signing encoder produces
 StampAndSign ==
   /\ phase = "throttled"
@@ -47,7 +53,7 @@ StampAndSign ==
   /\ nonce' = nonce + 1 /\ usedNonces' = usedNonces \cup {nonce + 1}
   /\ signedMsg' = [i \in 1..Len(val) |-> Row(val[i]).sign]
   /\ phase' = "signed"
-  /\ UNCHANGED <<ep, val, clock, wireMsg, keySent, accepted>>
+  /\ UNCHANGED <<ep, val, clock, wireMsg, keySent, accepted, received, seen>>
 Transmit ==
   /\ phase = "signed"
   /\ wireMsg' = [i \in 1..Len(val) |->
@@ -55,18 +61,30 @@ Transmit ==
                    ELSE IF PreEncodedQuery THEN Row(val[i]).sign ELSE Row(val[i]).query]
   /\ keySent' = (ep.signed \/ ep.keyed)
   /\ phase' = "sent"
-  /\ UNCHANGED <<ep, val, clock, ts, signedMsg, accepted, nonce, usedNonces>>
+  /\ UNCHANGED <<ep, val, clock, ts, signedMsg, accepted, nonce, usedNonces, received, seen>>
+\* the exchange receives the request: bytes as signed, key present, timestamp fresh, nonce never seen before
 Verify ==
   /\ phase = "sent"
-  /\ accepted' = (keySent /\ (ep.signed => (wireMsg = signedMsg /\ clock - ts <= Tol)))
-  /\ phase' = "idle"
+  /\ accepted' = (keySent /\ (ep.signed => (wireMsg = signedMsg /\ clock - ts <= Tol /\ nonce \notin seen)))
+  /\ received' = received + (IF ep.signed THEN 1 ELSE 0)
+  /\ seen' = IF ep.signed THEN seen \cup {nonce} ELSE seen
+  /\ phase' = "replied"
   /\ UNCHANGED <<ep, val, clock, ts, signedMsg, wireMsg, keySent, nonce, usedNonces>>
-Next == Build \/ Throttle \/ StampAndSign \/ Transmit \/ Verify
+\* the reply reaches the caller ...
+Reply == /\ phase = "replied" /\ phase' = "idle" /\ UNCHANGED <<ep, val, clock, ts, signedMsg, wireMsg, keySent, accepted, nonce, usedNonces, received, seen>>
+\* ... or the connection is lost before it does
+Lose ==
+  /\ phase = "replied"
+  /\ phase' = CASE Resend = "none" -> "idle"          \* the call raises; the caller may issue a new request
+                [] Resend = "resign" -> "built"       \* back through throttle, stamp and sign
+                [] Resend = "reuse" -> "signed"       \* same nonce, timestamp and signature once more
+  /\ UNCHANGED <<ep, val, clock, ts, signedMsg, wireMsg, keySent, accepted, nonce, usedNonces, received, seen>>
+Next == Build \/ Throttle \/ StampAndSign \/ Transmit \/ Verify \/ Reply \/ Lose
 Spec == Init /\ [][Next]_vars
 
 \* every request that went through the pipeline was accepted by the exchange
-Inv_C16_ServerAccepts == (phase = "idle" /\ nonce > 0) => accepted
+Inv_C16_ServerAccepts == (phase \in {"idle", "replied"} /\ nonce > 0) => accepted
 Inv_C16_Fresh == phase \in {"signed", "sent"} => clock - ts <= Tol
-Inv_C16_NonceUnique == Cardinality(usedNonces) = nonce
+Inv_C16_NonceUnique == Cardinality(usedNonces) = nonce /\ Cardinality(seen) = received
 
 ================================================================================
